@@ -14,7 +14,7 @@ Definition dispatch (x : sexp) : sexp :=
   else if (400 <=? t) && (t <? 500) then run_json t a
   else if (500 <=? t) && (t <? 600) then run_cpp t a
   else if (t =? 601) then run_build2 t a
-  else if (t =? 602) then run_build3 t a
+  else if (t =? 602) || (t =? 603) then run_build3 t a
   else if (600 <=? t) && (t <? 700) then run_build t a
   else if (t =? 700) then run_selector t a
   else if (710 <=? t) && (t <? 730) then run_conc t a
